@@ -369,7 +369,21 @@ func (d *drv) materialise(f map[string]interface{}, keys map[string]*pocec.Priva
 			fh.Close()
 		}
 	}
-	plotted, _ := f["plotted"].(bool)
+	plotted := f["prog"] == "plotted"
+	if f["prog"] == "preplotted" {
+		// a plot stopped between its passes: table A's checkpoint is final, table B has a quarter of its checkpoint
+		var ck [8]byte
+		v := uint64(1) << uint(hbl)
+		for i := 0; i < 8; i++ {
+			ck[i] = byte(v >> (8 * uint(i)))
+		}
+		patch(srcA, 42, ck[:])
+		v = (uint64(1) << uint(hbl-1)) / 4
+		for i := 0; i < 8; i++ {
+			ck[i] = byte(v >> (8 * uint(i)))
+		}
+		patch(srcB, 42, ck[:])
+	}
 	if plotted {
 		// one genuine record and a final checkpoint
 		if c := craft(hk, hbl); c != nil {
